@@ -1136,7 +1136,8 @@ def run(check):
     ]
     check.regen(['faultpipe'])
     check.check_sources()
-    check.prove('Props.C09', THEOREMS)
+    # (Obs.vo is a target of its own: the correspondence must still run when a proof no longer checks)
+    check.prove('Props.C09', THEOREMS, targets=['C09/Obs.vo', 'Props/C09.vo'])
     lib.ensure_repo_on_path()
     runner = Runner(check)
     for case, transports, oracle in make_cases(check):
